@@ -403,6 +403,53 @@ Qed.
 Lemma default_in_tables sk m s : cfg_in_tables (default_cfg sk m s) = true.
 Proof. vm_compute. reflexivity. Qed.
 
+(* ---- the index loop of the source removes exactly the markers --------------------------- *)
+
+Fixpoint marker_idxs (i : nat) (l : list name) : list nat :=
+  match l with
+  | [] => []
+  | x :: r => if is_marker x then i :: marker_idxs (S i) r else marker_idxs (S i) r
+  end.
+
+Lemma to_pop_loop_spec l : forall i acc, to_pop_loop i l acc = rev (marker_idxs i l) ++ acc.
+Proof.
+  induction l as [|x r IH]; intros i acc; cbn; [reflexivity|].
+  rewrite IH. destruct (is_marker x); cbn; [|reflexivity].
+  rewrite <- app_assoc. reflexivity.
+Qed.
+
+Lemma pop_all_app a : forall b l,
+  pop_all (a ++ b) l = match pop_all a l with Some l' => pop_all b l' | None => None end.
+Proof.
+  induction a as [|i a IH]; intros b l; cbn; [reflexivity|].
+  destruct (pop_at i l); [apply IH|reflexivity].
+Qed.
+
+Lemma pop_at_app pre x t : pop_at (length pre) (pre ++ x :: t) = Some (pre ++ t).
+Proof. induction pre as [|p pre IH]; cbn; [reflexivity|]. rewrite IH. reflexivity. Qed.
+
+Lemma pop_desc l : forall pre,
+  pop_all (rev (marker_idxs (length pre) l)) (pre ++ l) = Some (pre ++ strip_markers l).
+Proof.
+  induction l as [|x r IH]; intros pre; [reflexivity|].
+  assert (E : pre ++ x :: r = (pre ++ [x]) ++ r) by (rewrite <- app_assoc; reflexivity).
+  assert (L : S (length pre) = length (pre ++ [x])) by (rewrite app_length; cbn; lia).
+  cbn [marker_idxs strip_markers filter]. destruct (is_marker x) eqn:M; cbn [negb].
+  - cbn [rev]. rewrite pop_all_app, E, L, IH. cbn [pop_all].
+    rewrite <- app_assoc. cbn [app]. rewrite pop_at_app. reflexivity.
+  - rewrite E, L, IH. rewrite <- app_assoc. reflexivity.
+Qed.
+
+Lemma strip_loop_eq l : strip_markers_loop l = Some (strip_markers l).
+Proof.
+  unfold strip_markers_loop. rewrite to_pop_loop_spec, app_nil_r. exact (pop_desc l []).
+Qed.
+
+Lemma gss_in_tables sk m s :
+  cfg_in_tables (mkConfig (init_kex true) pref_keys pref_ciphers pref_macs pref_compression
+                          [] [] [] [] [] sk m s) = true.
+Proof. vm_compute. reflexivity. Qed.
+
 (* ---- the behaviour before the repair, refuted --------------------------------------------- *)
 
 (* a client that prefers the group-exchange methods *)
